@@ -725,7 +725,13 @@ def main():
                                 "constructors": sum(r["kind"] == "ctor" for r in rows)}
         ck.cov["dead_files_not_read"] = dead
         ck.cov["live_files"] = live
-        ck.prove(["gen/TypeTable.v", "Codegen/DeriveExec.v", "Codegen/DeriveProofs.v"], "props/C16.v")
+        rc4, out4 = sh([sys.executable, os.path.join(VERIF, "translate", "field_statics.py")])
+        ck.samples.append("translator: " + out4.strip()[:300])
+        if rc4 != 0:
+            ck.proof_ok, ck.broken, ck.proof_log = False, "translator field_statics.py: " + out4.strip()[-300:], out4
+        else:
+            ck.prove(["gen/TypeTable.v", "gen/FieldStatics.v", "Codegen/DeriveExec.v", "Codegen/DeriveProofs.v",
+                      "Codegen/DeriveStatics.v"], "props/C16.v")
     else:
         ck.proof_ok, ck.broken, ck.proof_log = False, "translator type_table.py: " + out.strip()[-400:], out
         ck.finish(rule="translator failed; no corpus could be generated")
